@@ -56,7 +56,7 @@ func (c16) Components() ([]string, []string) {
 		[]string{"TCP (simnet: byte injection into a live link)", "registrar (static table)", "default logger disabled"}
 }
 
-var c16Kinds = []string{"flip", "flip", "flip", "trunc", "len", "len", "type", "order", "garbage", "zlen", "zbomb", "splice", "hsflip", "hshuge", "hsgarbage", "count", "count", "hsvalue"}
+var c16Kinds = []string{"flip", "flip", "flip", "trunc", "len", "len", "type", "order", "garbage", "zlen", "zbomb", "splice", "hsflip", "hshuge", "hsgarbage", "count", "count", "hsvalue", "shortframe", "shortframe"}
 
 // c16Counts: offsets (>= from) of 4-byte big-endian fields holding a small number - lengths and
 // element counts of the encoded values
@@ -227,6 +227,14 @@ func mutate(m C16Mut, frames, hs [][]byte) (unit []byte, handshake bool) {
 		out := append(a[:min(k, len(a))], b[min(8, len(b)):]...)
 		binary.BigEndian.PutUint32(out[2:6], uint32(len(out)))
 		return out, false
+	case "shortframe":
+		// a frame cut short whose length field says so: the stream stays in step, the handler of
+		// the frame type finds less than it expects
+		f := pick(frames)
+		k := 8 + m.Pos%max(1, len(f)-8)
+		f = f[:k]
+		binary.BigEndian.PutUint32(f[2:6], uint32(k))
+		return f, false
 	case "count":
 		// an announced length or element count far beyond what follows
 		f := pick(frames)
@@ -237,7 +245,9 @@ func mutate(m C16Mut, frames, hs [][]byte) (unit []byte, handshake bool) {
 	case "hsvalue":
 		// a handshake frame that carries an arbitrary well-formed value (the first message of a
 		// connection is decoded before anything is known about the peer) with one inflated count
-		vals := []any{[]int64{1, 2, 3}, []string{"a", "b"}, []any{int64(1), "x"}, map[string]int64{"k": 1}, [][]byte{{1}, {2}}, []float64{1.5}, [3]int32{1, 2, 3}}
+		vals := []any{[]int64{1, 2, 3}, []string{"a", "b"}, []any{int64(1), "x"}, map[string]int64{"k": 1}, [][]byte{{1}, {2}}, []float64{1.5}, [3]int32{1, 2, 3},
+			// arrays inside arrays, slices, maps and interface values: the announced sizes multiply
+			[2][3]int32{{1, 2, 3}, {4, 5, 6}}, [][2][3]uint8{{{1, 2, 3}, {4, 5, 6}}}, []any{[2][2]int16{{1, 2}, {3, 4}}}, map[string][2][2]int32{"k": {{1, 2}, {3, 4}}}, [2][2][2]uint16{}}
 		buf := lib.TakeBuffer()
 		buf.Allocate(6)
 		buf.B[0], buf.B[1] = 87, 1
@@ -297,13 +307,17 @@ func (c16) Run(e *simkit.Env, cc any) {
 	var stream []int    // background numbers received on A from B
 	var victimGot []any // whatever reaches the victim process
 	var localGot int
+	afterGot := map[int]int{} // numbers sent by processes of C after the attack
 	bh := &Hooks{Name: "bystander", Env: e}
 	bh.Message = func(p *Probe, from gen.PID, m any) error {
 		if n, ok := m.(int); ok {
 			mu.Lock()
-			if from.Node == "b@h2" {
+			switch from.Node {
+			case "b@h2":
 				stream = append(stream, n)
-			} else {
+			case "c@h3":
+				afterGot[n]++
+			default:
 				localGot++
 			}
 			mu.Unlock()
@@ -479,6 +493,56 @@ func (c16) Run(e *simkit.Env, cc any) {
 	e.Settle(10 * time.Second)
 	if e.Failed() {
 		return
+	}
+	// the offending connection is either closed (C connects again) or still works - for every
+	// receive queue: processes of C with consecutive ids write to A in three rounds. Judged only
+	// when every injected unit kept the stream in step (a wrong length field or cut-off bytes make
+	// the receiver wait for, or swallow, what follows: nothing the receiver could do about)
+	inStep := true
+	for _, m := range c.Muts {
+		switch m.Kind {
+		case "type", "order", "zlen", "zbomb", "splice", "count", "shortframe", "hsvalue", "hsflip", "hshuge", "hsgarbage":
+		default:
+			inStep = false
+		}
+	}
+	const afterSenders = 8
+	var afterPIDs []gen.PID
+	for i := 0; i < afterSenders; i++ {
+		ah := &Hooks{Name: fmt.Sprintf("after%d", i), Env: e}
+		ah.Message = func(p *Probe, from gen.PID, m any) error {
+			if n, ok := m.(int); ok {
+				p.Send(gen.ProcessID{Name: "bystander", Node: "a@h1"}, n)
+			}
+			return nil
+		}
+		pid, err := cn.Spawn(ProbeFactory(ah), gen.ProcessOptions{})
+		if err != nil {
+			e.Infra("spawn after-sender: " + err.Error())
+			return
+		}
+		afterPIDs = append(afterPIDs, pid)
+	}
+	for round := 0; round < 3 && inStep; round++ {
+		for i, pid := range afterPIDs {
+			cn.Send(pid, 1000+round*100+i)
+		}
+		e.Settle(3 * time.Second)
+	}
+	mu.Lock()
+	missing := []int{}
+	for i := range afterPIDs {
+		if afterGot[1200+i] != 1 {
+			missing = append(missing, i)
+		}
+	}
+	mu.Unlock()
+	if len(missing) > 0 && inStep {
+		e.Fail("C16/offending-connection-stuck", "after the malformed traffic the connection c -> a is neither closed nor working: in the third round of ordinary messages from %d processes of c (3 s apart) those of processes %v did not arrive", afterSenders, missing)
+		return
+	}
+	if inStep {
+		e.Probe("offending-connection-usable-again")
 	}
 	for _, pl := range e.Panics() {
 		e.Probe("panic-recovered")
